@@ -154,7 +154,13 @@ func (c *FnCtx) call(in ssa.CallInstruction, cc *ssa.CallCommon) Val {
 			c.D.add(pi, fmt.Sprintf("(declare-fun |%s| (Int) Int)", pi))
 			c.assume(c.curItems, fmt.Sprintf("(forall ((i Int)) (! (=> (and (<= 0 i) (< i (slen %s))) (and (<= 0 (|%s| i)) (< (|%s| i) (slen %s)) (= (select %s (ix (soff %s) i)) (select %s (ix (soff %s) (|%s| i)))))) :pattern ((select %s (ix (soff %s) i)))))", s.T, pi, pi, s.T, nd, s.T, oldData, s.T, pi, nd, s.T))
 			c.assume(c.curItems, fmt.Sprintf("(forall ((j Int)) (! (=> (and (<= 0 j) (< j (slen %s))) (and (<= 0 (|%s| j)) (< (|%s| j) (slen %s)) (= (select %s (ix (soff %s) (|%s| j))) (select %s (ix (soff %s) j))))) :pattern ((select %s (ix (soff %s) j)))))", s.T, pf, pf, s.T, nd, s.T, pf, oldData, s.T, oldData, s.T))
-			c.note(callee.String() + ": built-in model (same elements before and after, same length; sortedness not assumed)")
+			if callee.String() == "sort.Strings" {
+				le := c.ufun("str_le", []Sort{SInt, SInt}, SBool)
+				c.assume(c.curItems, fmt.Sprintf("(forall ((i Int) (j Int)) (! (=> (and (<= 0 i) (< i j) (< j (slen %s))) (%s (select %s (ix (soff %s) i)) (select %s (ix (soff %s) j)))) :pattern ((select %s (ix (soff %s) i)) (select %s (ix (soff %s) j)))))", s.T, le, nd, s.T, nd, s.T, nd, s.T, nd, s.T))
+				c.note("sort.Strings: built-in model (a permutation of the elements, ascending in the string order str_le)")
+			} else {
+				c.note(callee.String() + ": built-in model (same elements before and after, same length; sortedness not assumed)")
+			}
 		}
 		c.libCallbackEffects(cc)
 		return Val{Tup: []Val{}}
